@@ -2449,6 +2449,14 @@ func (s *scanner) processScannedFiles(entryPointMeta []graph.EntryPoint) []scann
 			continue
 		}
 
+		// Skip JavaScript stubs for CSS files. They are generated by this loop
+		// and are never visited by it in a one-off build (they are appended past
+		// the end), but an incremental build reuses the stub's source index, so
+		// the stub may sit before files that were added later.
+		if repr, ok := result.file.inputFile.Repr.(*graph.JSRepr); ok && repr.CSSSourceIndex.IsValid() {
+			continue
+		}
+
 		sb := strings.Builder{}
 		isFirstImport := true
 
